@@ -12,14 +12,16 @@
 //! action), every action must be enabled in the compiled Lean model (`drv_sched`), and after every step the model
 //! state is compared with the real one.  Steps: `S.<kind>.<key>` spawn one caller, `c<j>` / `w<i>` release caller j /
 //! worker i, `f<i>.<ok|near|empty|err>` complete the lookup of worker i, `T.<key>` stop_managing_paths, `D` drop the
-//! user's manager, `Z` let timers fire; afterwards everything is drained (lookups answered, manager dropped, all
+//! user's manager, `Z` let timers fire, `M.<key>.<n>` n `cached_path` callers one after the other (index traffic); afterwards everything is drained (lookups answered, manager dropped, all
 //! tasks released until they end).  No failure of a controlled schedule is ever forgiven.
 //!
 //! **(b) free-running schedules**: runtime flavour (current-thread / multi-thread, optionally with seeded
 //! re-scheduling at every yield point, `pert=1`) + a program of harness operations:
 //!   `S.<kind>.<key>.<n>` spawn n concurrent callers, `R.<key>.<ok|empty|err>` let the oldest pending lookup of
 //!   the pair finish (or pre-arm the next one), `T.<key>` stop_managing_paths, `D` drop the user's manager,
-//!   `I` wait out the idle period, `A` finish all pending lookups, `Y` synchronise.
+//!   `I` wait out the idle period, `A` finish all pending lookups, `Y` synchronise, `M.<key>.<n>` n × `cached_path`
+//!   to destination `key` made by the harness task itself (traffic on the manager's index, as every `send_to`
+//!   causes it: scc::HashIndex frees a removed entry – drops its `PathSetTask` – only during later operations).
 //! At every `Y` the harness waits for the real system to become quiescent, then *searches* a witness schedule
 //! of model actions (lock-region granularity) and replays it on the model: every action must be
 //! enabled (`ok`), and the model's observable state must equal what the real system showed – per caller
@@ -31,6 +33,10 @@
 //!
 //! Spec oracle (independent of the model), applied to the real system:
 //!  * `C20:waiter-not-released`  a `path()` future still pending although no lookup of its pair is pending;
+//!  * `C20:waiter-not-released:after-stop` / `:after-drop`  the same for a caller that was waiting for a lookup in
+//!                               flight when `stop_managing_paths(src, dst)` / the drop of the manager was called: after the lookup
+//!                               was answered (and, controlled: every parked task released) it must return within
+//!                               1.5 s / 4 s / 2.5 s – directed schedules `gen_stop_pending`, `gen_ctl_stop_pending`;
 //!  * `C20:two-workers`          more than one fetcher invocation for a pair before any removal of that pair;
 //!  * `C20:worker-not-stopped`   tokio tasks still alive / fetcher not dropped after the manager was dropped and
 //!                               all lookups finished;
@@ -111,6 +117,10 @@ enum Op {
     RefetchWait,
     ReleaseAll { resp: Resp },
     Sync,
+    /// the application keeps sending to destination `key`: `n` × `cached_path(src, key)` on the harness task
+    /// (what every `send_to` does) – pure traffic on the manager's index.  scc::HashIndex frees a removed entry
+    /// (and with it drops the `PathSetTask`) only in the course of later operations on the index
+    Traffic { key: usize, n: usize },
 }
 
 #[derive(Clone, Debug)]
@@ -173,6 +183,7 @@ fn sched_line(s: &Sched) -> String {
             Op::RefetchWait => "W".into(),
             Op::ReleaseAll { resp } => format!("A.{}", resp.s()),
             Op::Sync => "Y".into(),
+            Op::Traffic { key, n } => format!("M.{key}.{n}"),
         })
         .collect();
     format!(
@@ -250,6 +261,7 @@ fn parse_sched(line: &str) -> Option<Sched> {
                         ["W"] => Op::RefetchWait,
                         ["A", r] => Op::ReleaseAll { resp: parse_resp(r)? },
                         ["Y"] => Op::Sync,
+                        ["M", key, n] => Op::Traffic { key: key.parse().ok()?, n: n.parse().ok()? },
                         _ => return None,
                     };
                     ops.push(op);
@@ -474,8 +486,12 @@ struct RealWaiter {
     probe: Arc<ProbeState>,
     kind: Kind,
     key: usize,
-    handle: tokio::task::JoinHandle<String>,
+    /// `None`: a synchronous call made by the harness task itself (`Op::Traffic`)
+    handle: Option<tokio::task::JoinHandle<String>>,
     result: Option<String>,
+    /// `stop_managing_paths` of its pair ("stop") / the drop of the user's manager ("drop") was called while this
+    /// caller was waiting (the first of them)
+    stopped: Option<&'static str>,
 }
 
 fn classify_err(gate: &GateShared, e: &PathFetchError) -> String {
@@ -591,7 +607,7 @@ impl Real {
             }
         };
         let handle = tokio::spawn(Probe { inner: Box::pin(fut), st: probe.clone() });
-        self.waiters.push(RealWaiter { probe, kind, key, handle, result: None });
+        self.waiters.push(RealWaiter { probe, kind, key, handle: Some(handle), result: None, stopped: None });
     }
 
     fn spawn(&mut self, kind: Kind, key: usize) {
@@ -621,13 +637,40 @@ impl Real {
             out
         };
         let handle = tokio::spawn(Probe { inner: Box::pin(fut), st: probe.clone() });
-        self.waiters.push(RealWaiter { probe, kind, key, handle, result: None });
+        self.waiters.push(RealWaiter { probe, kind, key, handle: Some(handle), result: None, stopped: None });
+    }
+
+    /// one `cached_path` call made by the harness task itself (no task is spawned): a caller that has returned
+    fn inline_cached(&mut self, key: usize) -> String {
+        let (src, dst) = key_pair(key);
+        let mgr = self.mgr.as_ref().expect("traffic after drop");
+        let r = match catch(|| mgr.cached_path(src, dst, SystemTime::now())) {
+            Ok(Some(p)) => classify_path(&self.gate, key, &p),
+            Ok(None) => "nothing".into(),
+            Err(e) => format!("panic:{e}"),
+        };
+        let probe = Arc::new(ProbeState::default());
+        probe.done.store(true, Ordering::SeqCst);
+        self.waiters.push(RealWaiter { probe, kind: Kind::Cached, key, handle: None, result: Some(r.clone()), stopped: None });
+        r
+    }
+
+    /// `stop_managing_paths(key)` (or, `None`, the drop of the user's manager) is about to be called: remember
+    /// the callers that are waiting at this moment
+    async fn mark_stopped(&mut self, key: Option<usize>) {
+        self.collect().await;
+        for w in self.waiters.iter_mut() {
+            if w.result.is_none() && w.stopped.is_none() && key.map(|k| k == w.key).unwrap_or(true) {
+                w.stopped = Some(if key.is_some() { "stop" } else { "drop" });
+            }
+        }
     }
 
     async fn collect(&mut self) {
         for w in self.waiters.iter_mut() {
-            if w.result.is_none() && w.handle.is_finished() {
-                w.result = Some(match (&mut w.handle).await {
+            let Some(h) = w.handle.as_mut() else { continue };
+            if w.result.is_none() && h.is_finished() {
+                w.result = Some(match h.await {
                     Ok(s) => s,
                     Err(e) => format!("panic:{e}"),
                 });
@@ -704,6 +747,8 @@ struct Model<'a> {
     assigned: HashMap<usize, VecDeque<(Resp, u32)>>,
     n_waiters: usize,
     done: Vec<bool>,
+    /// result of a caller that is done in the model (it never changes again; saves the query)
+    res: Vec<Option<String>>,
     actions: u64,
     /// timers assumed to have fired: (worker, 1 = idle check finds the pair unused | 2 = refetch)
     timer_due: HashSet<(usize, u8)>,
@@ -737,6 +782,7 @@ impl<'a> Model<'a> {
             assigned: HashMap::new(),
             n_waiters: 0,
             done: vec![],
+            res: vec![],
             actions: 0,
             timer_due: HashSet::new(),
             exit_hint: HashMap::new(),
@@ -798,6 +844,7 @@ impl<'a> Model<'a> {
         self.act(&format!("m spawnHandle {i}"));
         self.n_waiters += 1;
         self.done.push(false);
+        self.res.push(None);
     }
     fn spawn(&mut self, kind: Kind, key: usize) {
         let a = match kind {
@@ -807,6 +854,7 @@ impl<'a> Model<'a> {
         self.act(&a);
         self.n_waiters += 1;
         self.done.push(false);
+        self.res.push(None);
     }
     fn globals(&mut self) -> (usize, usize, bool) {
         let g = self.ask("q g");
@@ -831,7 +879,8 @@ impl<'a> Model<'a> {
                 let q = self.ask(&format!("q t {j}"));
                 if field(&q, "pc") == "done" {
                     self.done[j] = true;
-                    return (progress, Some(field(&q, "res").to_string()));
+                    self.res[j] = Some(field(&q, "res").to_string());
+                    return (progress, self.res[j].clone());
                 }
             }
             return (progress, None);
@@ -861,6 +910,7 @@ impl<'a> Model<'a> {
                 progress = true;
             } else {
                 self.done[j] = false;
+                self.res[j] = None;
                 self.ask("restore");
             }
         }
@@ -974,6 +1024,7 @@ impl<'a> Model<'a> {
                         let (p, got) = self.run_waiter(j);
                         if got.is_some() && got.as_deref() != Some(want.as_str()) {
                             self.done[j] = false;
+                            self.res[j] = None;
                             self.ask("restore");
                         } else {
                             self.ask("forget");
@@ -1015,6 +1066,11 @@ impl<'a> Model<'a> {
         self.prearmed = sv.prearmed.clone();
         self.assigned = sv.assigned.clone();
         self.done = sv.done.clone();
+        for j in 0..self.res.len() {
+            if !self.done.get(j).copied().unwrap_or(false) {
+                self.res[j] = None;
+            }
+        }
         self.workers.truncate(sv.nworkers);
         for (i, w) in self.workers.iter_mut().enumerate() {
             w.resp = sv.resp[i];
@@ -1066,6 +1122,11 @@ impl<'a> Model<'a> {
         let mut results = vec![];
         let mut alive_tasks = 0;
         for j in 0..nt {
+            if self.done.get(j).copied().unwrap_or(false) && self.res.get(j).map(|r| r.is_some()).unwrap_or(false) {
+                finished.push(true);
+                results.push(self.res[j].clone());
+                continue;
+            }
             let q = self.ask(&format!("q t {j}"));
             let d = field(&q, "pc") == "done";
             finished.push(d);
@@ -1112,6 +1173,8 @@ struct Outcome {
     handle_callers: usize,
     handle_states: usize,
     handles_after_drop: usize,
+    /// `cached_path` calls made by the harness task itself (`M` operations)
+    traffic: usize,
     counts: HashMap<String, u64>,
     /// at a failed synchronisation point: the mismatch of every candidate witness tried last
     cand_mm: Vec<String>,
@@ -1170,6 +1233,7 @@ async fn run_sched_async(s: &Sched, lean: &mut Lean) -> Outcome {
     let base_tasks = tokio::runtime::Handle::current().metrics().num_alive_tasks();
     let mut real = Real { gate: gate.clone(), mgr: Some(mgr), waiters: vec![], threads: s.threads, removal_possible: vec![false; NKEYS], handles: vec![], idle_ms: s.idle_ms, refetch_ms: s.refetch_ms, t0: Instant::now() };
     let mut model = Model::new(lean);
+    let model_was_enabled = model.lean.enabled;
     let mut next_id: u32 = 1;
     let mut ops: Vec<Op> = s.ops.clone();
     // every schedule ends with: finish all lookups, drop, synchronise
@@ -1229,6 +1293,9 @@ async fn run_sched_async(s: &Sched, lean: &mut Lean) -> Outcome {
                 }
             }
             Op::Stop { key } => {
+                if real.mgr.is_some() {
+                    real.mark_stopped(Some(key)).await;
+                }
                 if let Some(m) = real.mgr.as_ref() {
                     let (a, b) = key_pair(key);
                     m.stop_managing_paths(a, b);
@@ -1237,6 +1304,9 @@ async fn run_sched_async(s: &Sched, lean: &mut Lean) -> Outcome {
                 }
             }
             Op::DropMgr => {
+                if real.mgr.is_some() {
+                    real.mark_stopped(None).await;
+                }
                 if real.mgr.take().is_some() {
                     model.act("m drop");
                     for r in real.removal_possible.iter_mut() {
@@ -1290,13 +1360,51 @@ async fn run_sched_async(s: &Sched, lean: &mut Lean) -> Outcome {
             Op::Sync => {
                 sync_point(&mut real, &mut model, &mut out, base_tasks).await;
             }
+            Op::Traffic { key, n } => {
+                // not in schedules with timers (the calls are placed in the model one by one, at quiescence)
+                if real.mgr.is_none() || n == 0 || s.idle_ms > 0 || s.refetch_ms > 0 {
+                    continue;
+                }
+                sync_point(&mut real, &mut model, &mut out, base_tasks).await;
+                // the first call may start a worker for the pair: let it settle
+                real.inline_cached(key);
+                model.spawn(Kind::Cached, key);
+                out.traffic += 1;
+                sync_point(&mut real, &mut model, &mut out, base_tasks).await;
+                for _ in 1..n {
+                    let r = real.inline_cached(key);
+                    out.traffic += 1;
+                    tokio::task::yield_now().await;
+                    model.spawn(Kind::Cached, key);
+                    // place it in the model right away if it returns the same there; otherwise the witness search
+                    // of the next synchronisation point places it
+                    if model.enabled() {
+                        let j = model.n_waiters - 1;
+                        model.ask("save");
+                        let (_, got) = model.run_waiter(j);
+                        if got.as_deref() == Some(r.as_str()) {
+                            model.ask("forget");
+                        } else {
+                            model.done[j] = false;
+                            model.res[j] = None;
+                            model.ask("restore");
+                        }
+                    }
+                }
+                sync_point(&mut real, &mut model, &mut out, base_tasks).await;
+            }
         }
-        if out.disagree.is_some() {
-            break;
+        if out.disagree.is_some() && model.lean.enabled {
+            // the model no longer describes what the code does.  The rest of the schedule is still run against the
+            // real code – the spec oracle does not depend on the model – without any further comparison
+            if let Some(r) = model.refused.take() {
+                let _ = r;
+            }
+            model.lean.enabled = false;
         }
     }
-    // final spec check: after the drop everything must be gone
-    if out.disagree.is_none() {
+    // final spec check (whether or not the model still agrees): after the drop everything must be gone
+    {
         let o = real.quiesce(true).await;
         let pending_lookups: usize = real.gate.pending().iter().sum();
         if real.mgr.is_none() && pending_lookups == 0 && o.finished.iter().all(|f| *f) {
@@ -1340,9 +1448,12 @@ async fn run_sched_async(s: &Sched, lean: &mut Lean) -> Outcome {
         }
     }
     out.trace_tail = model.log.iter().rev().take(60).rev().cloned().collect();
+    model.lean.enabled = model_was_enabled;
     // abort whatever is still there (a failed schedule may leave pending callers)
     for w in &real.waiters {
-        w.handle.abort();
+        if let Some(h) = &w.handle {
+            h.abort();
+        }
     }
     out
 }
@@ -1534,14 +1645,18 @@ async fn sync_point(real: &mut Real, model: &mut Model<'_>, out: &mut Outcome, b
                     out.reclaims += sub.iter().filter(|(_, w)| *w == 0).count();
                     out.handle_states += hstates.len();
                     // remember the handles of newly managed pairs (their worker index comes from the model)
-                    if model.enabled() {
-                        for (k, h) in cur.iter().enumerate() {
-                            if let Some(h) = h {
-                                if !real.handles.iter().any(|(_, hh, _)| hh.same(h)) {
+                    for (k, h) in cur.iter().enumerate() {
+                        if let Some(h) = h {
+                            if !real.handles.iter().any(|(_, hh, _)| hh.same(h)) {
+                                if model.enabled() {
                                     let q = model.ask(&format!("q k {k}"));
                                     if let Ok(i) = field(&q, "entry").parse::<usize>() {
                                         real.handles.push((k, h.clone(), i));
                                     }
+                                } else if out.disagree.is_some() {
+                                    // model switched off after a disagreement: the handle is still kept for the
+                                    // spec oracle (handles after the drop)
+                                    real.handles.push((k, h.clone(), usize::MAX >> 1));
                                 }
                             }
                         }
@@ -1571,6 +1686,9 @@ async fn sync_point(real: &mut Real, model: &mut Model<'_>, out: &mut Outcome, b
             out.disagree = first_mm;
             if model.enabled() {
                 model.ask("forget");
+                // from here on only the spec oracle (see `run_sched_async`)
+                model.refused = None;
+                model.lean.enabled = false;
             }
             break;
         }
@@ -1589,6 +1707,10 @@ async fn sync_point(real: &mut Real, model: &mut Model<'_>, out: &mut Outcome, b
     let mut stuck: Vec<usize> = (0..real.waiters.len())
         .filter(|j| real.waiters[*j].result.is_none() && pending[real.waiters[*j].key] == 0)
         .collect();
+    if out.spec.iter().any(|(k, _)| k.starts_with("C20:waiter-not-released")) {
+        // already reported in this run (the callers stay stuck): do not wait for them again
+        stuck.clear();
+    }
     if !stuck.is_empty() {
         // be sure: give it until the deadline
         while Instant::now() < deadline && !stuck.is_empty() {
@@ -1597,11 +1719,29 @@ async fn sync_point(real: &mut Real, model: &mut Model<'_>, out: &mut Outcome, b
             let pending = real.gate.pending();
             stuck.retain(|j| real.waiters[*j].result.is_none() && pending[real.waiters[*j].key] == 0);
         }
-        if let Some(j) = stuck.first() {
-            out.spec.push((
-                "C20:waiter-not-released".into(),
-                format!("caller {j} ({:?}) of pair {} is still pending although no lookup of that pair is pending", real.waiters[*j].kind, real.waiters[*j].key),
-            ));
+        if let Some(j) = stuck.iter().find(|j| real.waiters[**j].stopped == Some("stop")).or(stuck.iter().find(|j| real.waiters[**j].stopped.is_some())).or(stuck.first()) {
+            let w = &real.waiters[*j];
+            if let Some(op) = w.stopped {
+                // "… released as soon as the pending lookup for that pair finishes, however the waiter's arrival
+                // interleaves with … a cancellation or the manager being dropped"
+                out.spec.push((
+                    format!("C20:waiter-not-released:after-{op}"),
+                    format!(
+                        "caller {j} ({:?}) of pair {} was waiting for the lookup in flight when {} was called; the lookup has been answered since ({} started, {} finished, none pending) and the caller has still not returned, neither with a path nor with an error, {} ms after this synchronisation point began",
+                        w.kind,
+                        w.key,
+                        if op == "stop" { "stop_managing_paths(src, dst)" } else { "the drop of the user's manager" },
+                        real.gate.starts()[w.key],
+                        real.gate.ends()[w.key],
+                        if real.threads == 0 { 1500 } else { 4000 },
+                    ),
+                ));
+            } else {
+                out.spec.push((
+                    "C20:waiter-not-released".into(),
+                    format!("caller {j} ({:?}) of pair {} is still pending although no lookup of that pair is pending", w.kind, w.key),
+                ));
+            }
         }
     }
     // (2) one worker per pair: before any removal of the pair, at most one fetcher invocation
@@ -1713,6 +1853,9 @@ struct CCaller {
     mpc: String,
     /// the model has executed its finishing step
     mdone: bool,
+    /// `stop_managing_paths` of its pair ("stop") / the drop of the user's manager ("drop") was called while this
+    /// caller was waiting (the first of them)
+    stopped: Option<&'static str>,
 }
 
 struct CWorker {
@@ -1767,6 +1910,7 @@ struct CRun<'a> {
     refetch: bool,
     sites: HashMap<String, u64>,
     compared: u64,
+    traffic: usize,
 }
 
 impl<'a> CRun<'a> {
@@ -2247,7 +2391,7 @@ impl<'a> CRun<'a> {
                 tokio::spawn(CALLER_ID.scope(j, Probe { inner: Box::pin(fut), st: probe.clone() }))
             }
         };
-        self.callers.push(CCaller { kind, key, probe, join, result: None, site: "(spawned)", arrivals: 0, parked: None, mpc: String::new(), mdone: false });
+        self.callers.push(CCaller { kind, key, probe, join, result: None, site: "(spawned)", arrivals: 0, parked: None, mpc: String::new(), mdone: false, stopped: None });
         true
     }
 
@@ -2268,6 +2412,11 @@ impl<'a> CRun<'a> {
             }
             ["T", key] => {
                 let key: usize = key.parse().unwrap_or(0) % NKEYS;
+                if self.mgr.is_some() {
+                    for c in self.callers.iter_mut().filter(|c| c.result.is_none() && c.stopped.is_none() && c.key == key) {
+                        c.stopped = Some("stop");
+                    }
+                }
                 match self.mgr.as_ref() {
                     Some(m) => {
                         let (a, b) = key_pair(key);
@@ -2280,6 +2429,11 @@ impl<'a> CRun<'a> {
                 }
             }
             ["D"] => {
+                if self.mgr.is_some() {
+                    for c in self.callers.iter_mut().filter(|c| c.result.is_none() && c.stopped.is_none()) {
+                        c.stopped = Some("drop");
+                    }
+                }
                 if self.mgr.take().is_some() {
                     for r in self.removals.iter_mut() {
                         *r += 1;
@@ -2288,6 +2442,24 @@ impl<'a> CRun<'a> {
                     true
                 } else {
                     false
+                }
+            }
+            ["M", key, n] => {
+                // the application keeps sending to destination `key`: n × cached_path (each one a caller task that
+                // runs to completion in one poll) – traffic on the manager's index, see `gen_stop_pending`
+                let key: usize = key.parse().unwrap_or(0) % NKEYS;
+                let n: usize = n.parse().unwrap_or(0).min(2000);
+                if self.mgr.is_none() || self.timers || n == 0 {
+                    false
+                } else {
+                    for _ in 0..n {
+                        if self.fail.is_some() || !self.spawn_caller(Kind::Cached, key) {
+                            break;
+                        }
+                        self.traffic += 1;
+                        self.settle().await;
+                    }
+                    true
                 }
             }
             ["Z"] => {
@@ -2455,6 +2627,7 @@ async fn run_ctl_async(s: &Sched, lean: &mut Lean) -> Outcome {
         refetch: s.refetch_ms > 0,
         sites: HashMap::new(),
         compared: 0,
+        traffic: 0,
     };
     // ---- the schedule proper ----
     match spec.genr {
@@ -2534,13 +2707,30 @@ async fn run_ctl_async(s: &Sched, lean: &mut Lean) -> Outcome {
     }
     let stuck: Vec<usize> = (0..run.callers.len()).filter(|j| run.callers[*j].result.is_none()).collect();
     if run.fail.is_none() {
-        if let Some(j) = stuck.first() {
+        if let Some(j) = stuck.iter().find(|j| run.callers[**j].stopped == Some("stop")).or(stuck.iter().find(|j| run.callers[**j].stopped.is_some())).or(stuck.first()) {
             let c = &run.callers[*j];
             let pend = run.workers.iter().filter(|w| w.key == c.key && matches!(w.parked, Some(Park::Fetch(_)))).count();
-            run.spec.push((
-                "C20:waiter-not-released".into(),
-                format!("caller {j} ({:?}, pair {}) has not returned (last yield point {}) although every lookup was completed ({pend} pending) and every task was scheduled", c.kind, c.key, c.site),
-            ));
+            let (st, en) = (run.gate.starts()[c.key], run.gate.ends()[c.key]);
+            if let Some(op) = c.stopped {
+                // "… released as soon as the pending lookup for that pair finishes, however the waiter's arrival
+                // interleaves with … a cancellation or the manager being dropped"
+                run.spec.push((
+                    format!("C20:waiter-not-released:after-{op}"),
+                    format!(
+                        "caller {j} ({:?}, pair {}) was waiting (last yield point {}) when {} was called; afterwards every pending lookup was answered ({st} started, {en} ran to completion, {pend} pending), every parked task was released and {} ms passed: the caller has not returned, neither with a path nor with an error",
+                        c.kind,
+                        c.key,
+                        c.site,
+                        if op == "stop" { "stop_managing_paths(src, dst)" } else { "the drop of the user's manager" },
+                        limit.as_millis()
+                    ),
+                ));
+            } else {
+                run.spec.push((
+                    "C20:waiter-not-released".into(),
+                    format!("caller {j} ({:?}, pair {}) has not returned (last yield point {}) although every lookup was completed ({pend} pending) and every task was scheduled", c.kind, c.key, c.site),
+                ));
+            }
         }
     }
     // (b) drop, then until every worker task has ended
@@ -2578,10 +2768,13 @@ async fn run_ctl_async(s: &Sched, lean: &mut Lean) -> Outcome {
         let alive = tokio::runtime::Handle::current().metrics().num_alive_tasks();
         if !run.gate.dropped.load(Ordering::SeqCst) {
             run.spec.push(("C20:worker-not-stopped".into(), "manager value (fetcher) not dropped after the user dropped the manager and all callers returned".into()));
-        } else if run.workers.iter().any(|w| !w.done) || alive > base_tasks {
+        } else if alive > base_tasks {
             let n = run.workers.iter().filter(|w| !w.done).count();
             run.spec.push(("C20:worker-not-stopped".into(), format!("{n} worker task(s) have not ended ({} tokio tasks alive) after the manager was dropped, all lookups finished and every task was scheduled", alive.saturating_sub(base_tasks))));
         } else {
+            // every task has ended – also a worker that never reached the end of its exit sequence (`w:done`), e.g.
+            // because it was aborted: then its handle shows it
+            let all_done = run.workers.iter().all(|w| w.done);
             // every handle reports an error instead of a path: the state, and an actual call on the handle
             for i in 0..run.workers.len() {
                 let st = handle_state(&run.gate, run.workers[i].key, &run.workers[i].h);
@@ -2592,7 +2785,7 @@ async fn run_ctl_async(s: &Sched, lean: &mut Lean) -> Outcome {
                 out.handles_after_drop += 1;
             }
             for key in 0..NKEYS {
-                if run.workers.iter().any(|w| w.key == key) && run.fail.is_none() {
+                if all_done && run.workers.iter().any(|w| w.key == key) && run.fail.is_none() {
                     let j = run.callers.len();
                     run.step(&format!("S.o.{key}")).await;
                     let t2 = Instant::now();
@@ -2636,6 +2829,7 @@ async fn run_ctl_async(s: &Sched, lean: &mut Lean) -> Outcome {
         out.counts.insert(format!("region {k}"), *n);
     }
     out.syncs = run.compared as usize;
+    out.traffic = run.traffic;
     out.trace_tail = run.model.log.iter().rev().take(60).rev().cloned().collect();
     for c in &run.callers {
         c.join.abort();
@@ -2731,6 +2925,56 @@ fn gen_refetch(rng: &mut Rng) -> Sched {
         }
     }
     Sched { threads, idle_ms: 0, cap: None, refetch_ms: 40, ops, perturb: threads > 0 && rng.chance(1, 2), ctl: None }
+}
+
+/// schedules around "the pair is cancelled / the manager dropped while callers wait for a lookup in flight":
+/// callers park on the first lookup of a pair, `stop_managing_paths(src, dst)` (or the drop of the user's manager)
+/// is called while the lookup is pending, the application keeps sending to another destination (`M`: every
+/// `send_to` reads the manager's index – scc::HashIndex frees the removed entry, i.e. drops its `PathSetTask`,
+/// only in the course of such later operations: ~190 `cached_path` calls when the index became empty), then the
+/// lookup is answered.  Every caller must return.
+fn gen_stop_pending(rng: &mut Rng) -> Sched {
+    let threads = if rng.chance(1, 2) { 0 } else { rng.range(2, 4) as usize };
+    let key = rng.below(2) as usize;
+    let other = 1 - key;
+    let mut ops = vec![];
+    // the other destination is already in use before the stop (then the index does not become empty)
+    let other_before = rng.chance(1, 5);
+    if other_before {
+        ops.push(Op::Spawn { kind: Kind::Cached, key: other, n: 1 });
+        ops.push(Op::Sync);
+    }
+    let waves = rng.range(1, 2);
+    for _ in 0..waves {
+        let kind = if rng.chance(1, 2) { Kind::Path } else { Kind::PathWait };
+        ops.push(Op::Spawn { kind, key, n: *rng.pick(&[1usize, 2, 8]) });
+        // (multi-thread: always – which callers run `ensure_managed_paths` before a racing stop is not observable)
+        if threads > 0 || rng.chance(2, 3) {
+            ops.push(Op::Sync);
+        }
+    }
+    let dropped = rng.chance(1, 6);
+    if dropped {
+        ops.push(Op::DropMgr);
+    } else {
+        ops.push(Op::Stop { key });
+        if rng.chance(1, 2) {
+            ops.push(Op::Sync);
+        }
+        ops.push(Op::Traffic { key: other, n: *rng.pick(&[40usize, 260, 420, 420]) });
+        if rng.chance(1, 4) {
+            // new callers after the stop: a successor worker for the pair
+            ops.push(Op::Spawn { kind: pick_kind(rng), key, n: *rng.pick(&[1usize, 2]) });
+            ops.push(Op::Sync);
+        }
+    }
+    if rng.chance(1, 2) {
+        ops.push(Op::Release { key, resp: pick_resp(rng) });
+    } else {
+        ops.push(Op::ReleaseAll { resp: pick_resp(rng) });
+    }
+    ops.push(Op::Sync);
+    Sched { threads, idle_ms: 0, cap: None, refetch_ms: 0, ops, perturb: threads > 0 && rng.chance(1, 2), ctl: None }
 }
 
 fn gen_sched(rng: &mut Rng) -> Sched {
@@ -2864,6 +3108,52 @@ fn gen_ctl(rng: &mut Rng) -> Sched {
     Sched { threads: 0, idle_ms, cap: None, refetch_ms, ops: vec![], perturb: false, ctl: Some(CtlSpec { steps: vec![], genr: Some((rng.next(), n)) }) }
 }
 
+/// controlled counterpart of `gen_stop_pending` (explicit steps): 1..3 callers of one pair are released up to some
+/// yield point each (at least the first one far enough to have started the worker; 5 releases = blocked in its
+/// `Notified`), the worker is released 0..2 times (2 = its lookup is in flight), then `stop_managing_paths`, traffic to
+/// the other destination, the answer of the lookup; the drain of the runner completes everything else.
+fn gen_ctl_stop_pending(rng: &mut Rng) -> Sched {
+    let key = rng.below(2) as usize;
+    let other = 1 - key;
+    let mut steps: Vec<String> = vec![];
+    if rng.chance(1, 6) {
+        steps.push(format!("S.c.{other}"));
+    }
+    let callers = rng.range(1, 3) as usize;
+    for j in 0..callers {
+        steps.push(format!("S.{}.{key}", if rng.chance(1, 2) { "p" } else { "w" }));
+        let adv = if j == 0 { rng.range(2, 5) } else { rng.range(0, 5) };
+        for _ in 0..adv {
+            steps.push(format!("c{j}"));
+        }
+    }
+    // the worker of the pair is worker 0, unless the other destination was used first
+    let w = if steps[0].starts_with("S.c.") { 1 } else { 0 };
+    let wadv = *rng.pick(&[0u64, 1, 2, 2, 2]);
+    for _ in 0..wadv {
+        steps.push(format!("w{w}"));
+    }
+    if rng.chance(1, 3) {
+        // a late caller
+        let j = callers;
+        steps.push(format!("S.p.{key}"));
+        for _ in 0..rng.range(0, 5) {
+            steps.push(format!("c{j}"));
+        }
+    }
+    steps.push(format!("T.{key}"));
+    steps.push(format!("M.{other}.{}", *rng.pick(&[40usize, 260, 420, 420])));
+    if rng.chance(1, 4) {
+        // a successor worker for the pair
+        steps.push(format!("S.p.{key}"));
+    }
+    steps.push(format!("f{w}.{}", pick_resp(rng).s()));
+    for _ in 0..rng.range(0, 6) {
+        steps.push(format!("w{w}"));
+    }
+    Sched { threads: 0, idle_ms: 0, cap: None, refetch_ms: 0, ops: vec![], perturb: false, ctl: Some(CtlSpec { steps, genr: None }) }
+}
+
 /// best-effort shrinking: drop operations while the same kind of failure persists
 fn shrink(s: &Sched, lean: &mut Lean, pred: &dyn Fn(&Outcome) -> bool) -> Sched {
     let mut cur = s.clone();
@@ -2954,7 +3244,11 @@ fn main() {
         let n = args.scale(330, 16000);
         for k in 0..n {
             let mut r = rng.fork();
-            if k % 3 != 2 {
+            if k % 40 == 5 {
+                schedules.push(("directed: stop / drop while callers wait for a lookup in flight, then traffic (free-running)".into(), gen_stop_pending(&mut r)));
+            } else if k % 40 == 25 {
+                schedules.push(("directed: stop while callers wait for a lookup in flight, then traffic (controlled)".into(), gen_ctl_stop_pending(&mut r)));
+            } else if k % 3 != 2 {
                 schedules.push(("controlled".into(), gen_ctl(&mut r)));
             } else {
                 schedules.push(("random".into(), gen_sched(&mut r)));
@@ -2965,6 +3259,8 @@ fn main() {
     let budget = Duration::from_secs(if args.thorough() { 1300 } else { 150 });
     let mut skipped = 0u64;
     let mut transients = 0u64;
+    let mut shrunk_disagreements = 0u32;
+    let mut shrunk_keys: HashSet<String> = HashSet::new();
     for (origin, s) in &schedules {
         if t0.elapsed() > budget {
             skipped += 1;
@@ -3012,6 +3308,7 @@ fn main() {
         rep.hit_n("witness rebuilt after late quiescence", o.retries as u64);
         rep.hit_n("deferred cancellations (scc reclaim) inferred", o.reclaims as u64);
         rep.hit_n("callers on a bare handle", o.handle_callers as u64);
+        rep.hit_n("cached_path calls as index traffic (M)", o.traffic as u64);
         rep.hit_n("handshake states compared (init/ongoing/error/active per held handle)", o.handle_states as u64);
         rep.hit_n("handles checked after drop (error, no path)", o.handles_after_drop as u64);
         for (a, n) in &o.counts {
@@ -3030,6 +3327,7 @@ fn main() {
                 Op::RefetchWait => "op wait for refetch".into(),
                 Op::ReleaseAll { .. } => "op finish all lookups".into(),
                 Op::Sync => "op sync".into(),
+                Op::Traffic { n, .. } => format!("op traffic: {n} x cached_path to another destination"),
             };
             rep.hit(&k);
         }
@@ -3080,7 +3378,10 @@ fn main() {
             }
         }
         if let Some((what, im, mo)) = &o.disagree {
-            let small = shrink(s, &mut lean, &|o: &Outcome| o.disagree.is_some());
+            // (shrinking re-runs the schedule up to 40 times: only the first few disagreements of a run are shrunk,
+            // the others are reported as they are)
+            shrunk_disagreements += 1;
+            let small = if shrunk_disagreements <= 3 { shrink(s, &mut lean, &|o: &Outcome| o.disagree.is_some()) } else { s.clone() };
             let o2 = run_sched(&small, &mut lean);
             let (w2, i2, m2, tail, cm) = match &o2.disagree {
                 Some((w, i, m)) => (w.clone(), i.clone(), m.clone(), o2.trace_tail.clone(), o2.cand_mm.clone()),
@@ -3095,7 +3396,8 @@ fn main() {
                 continue;
             }
             let k = key.clone();
-            let small = shrink(s, &mut lean, &|o: &Outcome| o.spec.iter().any(|(kk, _)| *kk == k));
+            // every failing schedule is reported; only the first one of a key is shrunk
+            let small = if shrunk_keys.insert(key.clone()) { shrink(s, &mut lean, &|o: &Outcome| o.spec.iter().any(|(kk, _)| *kk == k)) } else { s.clone() };
             rep.spec_fail(key, what, json!({"line": sched_line(&small), "original": line}));
         }
     }
